@@ -234,6 +234,8 @@ func c31Body(r *vh.Rand, content string) string {
 		return content + r.Str(c31Alpha+"X", 1, 4)
 	case 3:
 		return r.Str(c31Alpha+"X", 0, 10)
+	case 4: // only the tail (a server that applies the range but does not say so)
+		return content[r.Intn(len(content)+1):]
 	}
 	return content
 }
@@ -323,6 +325,26 @@ func c31Gen(r *vh.Rand, tier string, n int) []c31In {
 		k := r.Intn(7)
 		for j := 0; j < k; j++ {
 			in.Script = append(in.Script, c31Beh1(r, content))
+		}
+		if r.Chance(1, 6) {
+			// resume scenarios: a correct prefix on disk (left by an earlier call or by a lost connection in this one),
+			// then a server that sends exactly the missing tail, with or without saying 206, or everything again
+			cutAt := r.Intn(len(content) + 1)
+			var pre []c31Beh
+			if r.Bool() {
+				in.Partial = sp(content[:cutAt])
+			} else {
+				in.Partial = nil
+				pre = append(pre, c31Beh{Kind: "resp", Status: 200, HR: true, Body: content, Cut: "early", N: cutAt})
+			}
+			tail := c31Beh{Kind: "resp", Status: []int{200, 206, 200}[r.Intn(3)], HR: false, Body: content[cutAt:], Cut: "full"}
+			if r.Chance(1, 3) {
+				tail.Body = content
+			}
+			in.Script = append(append(pre, tail), in.Script...)
+			if len(in.Script) > 7 {
+				in.Script = in.Script[:7]
+			}
 		}
 		ins = append(ins, in)
 	}
